@@ -948,11 +948,6 @@ func (s *SecureChannel) sendRequestWithTimeout(
 	ch, err := s.sendAsyncWithTimeout(ctx, req, reqID, instance, authToken, respRequired, timeout)
 	s.pendingReq.Done()
 	if err != nil {
-		// the request did not go out: nobody will answer it,
-		// release the response slot registered for it
-		if respRequired {
-			s.popHandler(reqID)
-		}
 		return err
 	}
 
@@ -1055,15 +1050,24 @@ func (s *SecureChannel) sendAsyncWithTimeout(
 		s.handlersMu.Unlock()
 	}
 
+	// fail releases the response slot registered above: the request
+	// did not go out, so nobody will answer it.
+	fail := func(err error) (<-chan *MessageBody, error) {
+		if respRequired {
+			s.popHandler(reqID)
+		}
+		return nil, err
+	}
+
 	chunks, err := m.EncodeChunks(instance.maxBodySize)
 	if err != nil {
-		return nil, err
+		return fail(err)
 	}
 
 	for i, chunk := range chunks {
 		select {
 		case <-ctx.Done():
-			return nil, ctx.Err()
+			return fail(ctx.Err())
 		default:
 		}
 		if i > 0 { // fix sequence number on subsequent chunks
@@ -1073,14 +1077,14 @@ func (s *SecureChannel) sendAsyncWithTimeout(
 
 		chunk, err = instance.signAndEncrypt(m, chunk)
 		if err != nil {
-			return nil, err
+			return fail(err)
 		}
 
 		// send the message
 		var n int
 		s.c.SetWriteDeadline(time.Now().Add(timeout))
 		if n, err = s.c.Write(chunk); err != nil {
-			return nil, err
+			return fail(err)
 		}
 		s.c.SetWriteDeadline(time.Time{})
 
